@@ -145,4 +145,9 @@ def hookAccepts (k : Consts) (logAddr : Address) : Bool := logAddr == k.packetC
 def hook {σ : Type} (k : Consts) (send : σ → σ) (logAddr : Address) (s : σ) : σ :=
   if hookAccepts k logAddr then send s else s
 
+/-- the hook over a whole receipt: `PostTxProcessing` walks the logs in order and treats EACH log on its own. -/
+def hookRun {σ : Type} (k : Consts) (send : σ → σ) : List Address → σ → σ
+  | [], s => s
+  | a :: rest, s => hookRun k send rest (hook k send a s)
+
 end TM.Guard
